@@ -21,16 +21,27 @@ type ptype struct {
 	src  string // type as written in source
 	name string // identifier fragment
 	val  string // initialiser of the typed variable
+	lam  string // func types: a lambda whose body type-checks against this type only
 }
 
 var universe = []ptype{
-	{"int", "Int", "7"},
-	{"string", "String", `"s"`},
-	{"float64", "Float64", "2.5"},
-	{"bool", "Bool", "true"},
-	{"[]int", "Ints", "[]int{1, 2}"},
-	{"*foo", "Pfoo", "&foo{}"},
+	{"int", "Int", "7", ""},
+	{"string", "String", `"s"`, ""},
+	{"float64", "Float64", "2.5", ""},
+	{"bool", "Bool", "true", ""},
+	{"[]int", "Ints", "[]int{1, 2}", ""},
+	{"*foo", "Pfoo", "&foo{}", ""},
+	// func-typed parameters (family lam1 only): the argument is also written as a lambda; whether the
+	// lambda fits a candidate is only known after its body has been compiled against that candidate
+	{"func(int) int", "FnII", "func(n int) int { return n }", "n => n * 2"},
+	{"func(string) string", "FnSS", "func(s string) string { return s }", `s => s + "!"`},
+	{"fn2", "FnIII", "func(p, q int) int { return p }", "(p, q) => p * q"},
+	{"func(*foo) int", "FnPI", "func(p *foo) int { return 1 }", "p => p.v"},
+	{"func(bool) bool", "FnBB", "func(b bool) bool { return b }", "b => !b"},
 }
+
+// baseTypes: the universe of the value-typed grids; the func types behind it belong to family lam1
+const baseTypes = 6
 
 // receiver pseudo type of the operator tables: "R" stands for the unit's own receiver type
 const recvT = "R"
@@ -44,7 +55,7 @@ func lookup(src string) ptype {
 	panic("unknown type " + src)
 }
 
-const prelude = "type foo struct {\n\tv int\n}\n"
+const prelude = "type foo struct {\n\tv int\n}\n\ntype fn2 func(int, int) int\n"
 
 // ---- cases ----
 
@@ -256,6 +267,11 @@ func gen(k Case) (decls, classDecls, body, want string) {
 		for _, c := range sorted {
 			fmt.Fprintf(&b, "%s(%s)\n", call, args(c))
 			w.WriteString(tag(c) + "\n")
+			// the same call with the func-typed argument written as a lambda, in call and in command style
+			if ps := params(c); len(ps) == 1 && ps[0] != recvT && lookup(ps[0]).lam != "" {
+				fmt.Fprintf(&b, "%s(%s)\n%s %s\n", call, lookup(ps[0]).lam, call, lookup(ps[0]).lam)
+				w.WriteString(tag(c) + "\n" + tag(c) + "\n")
+			}
 		}
 	case "op":
 		// operator table of overload.md: methods for (R,x), plain functions for (x,R)
@@ -405,7 +421,7 @@ func enumerate(thorough bool) []Case {
 	// set1: all subsets of size 2..4 of the six types x all orderings x styles
 	n := 0
 	for size := 2; size <= 4; size++ {
-		for _, ss := range subsets(len(universe), size) {
+		for _, ss := range subsets(baseTypes, size) {
 			var l []string
 			for _, i := range ss {
 				l = append(l, universe[i].src)
@@ -422,11 +438,35 @@ func enumerate(thorough bool) []Case {
 			}
 		}
 	}
+	// lam1: candidates with func-typed parameters called with lambdas: every subset of size 2..3 of the five
+	// func types plus int, in every order (a lambda is compiled against the candidates in list order, and a
+	// body that fails against an earlier candidate must leave nothing behind for the later ones)
+	lamPool := []string{"int"}
+	for _, t := range universe[baseTypes:] {
+		lamPool = append(lamPool, t.src)
+	}
+	n = 0
+	for size := 2; size <= 3; size++ {
+		for _, ss := range subsets(len(lamPool), size) {
+			var l []string
+			for _, i := range ss {
+				l = append(l, lamPool[i])
+			}
+			for _, p := range perms(l) {
+				for si, st := range []string{"literal", "named", "method", "mixed-ln"} {
+					if thorough || size == 2 || n%4 == si {
+						add("set1", st, p, "")
+					}
+				}
+				n++
+			}
+		}
+	}
 	// pair2: two 2-parameter candidates that differ in exactly one position
 	n = 0
-	for _, ab := range subsets(len(universe), 2) {
+	for _, ab := range subsets(baseTypes, 2) {
 		a, b := universe[ab[0]].src, universe[ab[1]].src
-		for _, c := range universe {
+		for _, c := range universe[:baseTypes] {
 			for pos := 0; pos < 2; pos++ {
 				l := []string{a + "," + c.src, b + "," + c.src}
 				if pos == 1 {
@@ -446,7 +486,7 @@ func enumerate(thorough bool) []Case {
 	}
 	// grid2: the four candidates (A,A) (A,B) (B,A) (B,B): every pair differs in one or two positions
 	n = 0
-	for _, ab := range subsets(len(universe), 2) {
+	for _, ab := range subsets(baseTypes, 2) {
 		a, b := universe[ab[0]].src, universe[ab[1]].src
 		l := []string{a + "," + a, a + "," + b, b + "," + a, b + "," + b}
 		for _, p := range perms(l) {
@@ -461,7 +501,7 @@ func enumerate(thorough bool) []Case {
 	// class1: overloads declared inside a class file (candidates become methods of the class)
 	n = 0
 	for size := 2; size <= 4; size++ {
-		for _, ss := range subsets(len(universe), size) {
+		for _, ss := range subsets(baseTypes, size) {
 			var l []string
 			for _, i := range ss {
 				l = append(l, universe[i].src)
@@ -514,7 +554,7 @@ func enumerate(thorough bool) []Case {
 	}
 	n = 0
 	for size := 2; size <= 3; size++ {
-		for _, ss := range subsets(len(universe), size) {
+		for _, ss := range subsets(baseTypes, size) {
 			var l []string
 			for _, i := range ss {
 				l = append(l, universe[i].src)
